@@ -396,6 +396,12 @@ fn cases(args: &Args, rng: &mut Rng) -> Vec<Case> {
     // SACKs that arrive after newer ones: with a smaller cumulative TSN (ignored since 5cfc04a) and with the same one (known finding)
     v.push(c13_case(4096, 16, 256 * 1024, 200, &[30_000], faults_parse("A.TSN.5.dropn3+B.SACK.1.late4"), None));
     v.push(c13_case(4096, 16, 256 * 1024, 200, &[30_000], faults_parse("A.TSN.1.dropn3+B.SACK.1.late3"), None));
+    // the TSN space wraps early in the transfer and the receive window closes *after* the wrap (a chunk behind the wrap is
+    // lost three times, everything after it piles up): the zero / small a_rwnd of those SACKs has to be honoured
+    for k in [1u32, 2, 4] { for (rw, b) in [(4096usize, 16usize), (8192, 4), (2 * 1184, 16)] {
+        if !args.tier_thorough && (k as usize + rw / 1000) % 2 == 1 { continue; }
+        v.push(c13_case(rw, b, 256 * 1024, 120, &[30_000], vec![Fault { side: 0, ctype: 254, ordinal: k + 2, action: Action::DropN(3) }], Some(0u32.wrapping_sub(k))));
+    } }
     // a partially reliable channel with loss: FORWARD-TSN is legitimate while something abandoned is unacknowledged,
     // and has to stop once the peer's cumulative ack has passed it (quiescence)
     for (f, mr) in [("A.TSN.1.dropn2", 0u16), ("A.TSN.2.dropn3+B.SACK.2.drop", 1), ("-", 0)] {
